@@ -1253,6 +1253,13 @@ func (zl *zlexer) Next() (lex, bool) {
 		return *l, true
 	}
 
+	if zl.quote {
+		// The input ends inside a quoted string.
+		l.token = "unbalanced quote"
+		l.err = true
+		return *l, true
+	}
+
 	return lex{value: zEOF}, false
 }
 
